@@ -370,6 +370,55 @@ pub fn indirect_dependency_projects() -> Vec<Project> {
 
 /// one spelling declared in two packages (variants, enums, structs, functions, traits and their
 /// methods, impls): the Go names of the two must differ
+
+/// projects whose *size* varies: chains of n packages, n libraries under one Main, a library of n files
+/// (named so that their order as text differs from their order as numbers from 10 on)
+pub fn size_projects() -> Vec<Project> {
+    let mut v = Vec::new();
+    for n in [3usize, 5, 8, 11] {
+        // P1 -> P2 -> ... -> Pn
+        let mut files: Vec<(String, String)> = Vec::new();
+        files.push(("main.gom".into(), "package Main\nimport P1\n\nfn main() {\n    string_println(int32_to_string(P1::f(1)));\n    string_println(P1::g(\"s\"));\n    let c = P1::mk();\n    string_println(int32_to_string(c(0)))\n}\n".into()));
+        for k in 1..=n {
+            let body = if k < n {
+                format!("package P{k}\nimport P{m}\n\nstruct S {{ v: int32 }}\nfn f(x: int32) -> int32 {{ let s = S {{ v: {k} }}; P{m}::f(x) + s.v }}\nfn g[T](x: T) -> T {{ P{m}::g(x) }}\nfn mk() -> (int32) -> int32 {{ let c = {k}; let inner = P{m}::mk(); |q: int32| q + c + inner(0) }}\n", k = k, m = k + 1)
+            } else {
+                format!("package P{k}\n\nstruct S {{ v: int32 }}\nfn f(x: int32) -> int32 {{ x }}\nfn g[T](x: T) -> T {{ x }}\nfn mk() -> (int32) -> int32 {{ |q: int32| q + {k} }}\n", k = k)
+            };
+            files.push((format!("P{}/lib.gom", k), body));
+        }
+        let s: usize = (1..n).sum();
+        v.push(Project { name: format!("size-chain-{}", n), files, expected_stdout: Some(format!("{}\ns\n{}\n", 1 + s, s + n)) });
+    }
+    for n in [3usize, 4] {
+        let mut main = String::from("package Main\n");
+        for k in 1..=n { main.push_str(&format!("import L{}\n", k)); }
+        main.push_str("\nfn main() {\n");
+        let mut want = String::new();
+        for k in 1..=n {
+            main.push_str(&format!("    string_println(int32_to_string(L{k}::get(L{k}::mk()) + L{k}::code(L{k}::E::B({k}))));\n", k = k));
+            want.push_str(&format!("{}\n", 10 * k + k));
+        }
+        main.push_str("}\n");
+        let mut files = vec![("main.gom".to_string(), main)];
+        for k in 1..=n {
+            files.push((format!("L{}/lib.gom", k), format!("package L{k}\n\nstruct S {{ v: int32 }}\nenum E {{ A, B(int32) }}\nfn mk() -> S {{ S {{ v: {v} }} }}\nfn get(s: S) -> int32 {{ s.v }}\nfn code(e: E) -> int32 {{ match e {{ E::A => 0, E::B(q) => q }} }}\n", k = k, v = 10 * k)));
+        }
+        v.push(Project { name: format!("size-wide-{}", n), files, expected_stdout: Some(want) });
+    }
+    for n in [3usize, 9, 12] {
+        // one library of n files f1.gom .. fn.gom: fk calls f(k+1)
+        let mut files = vec![("main.gom".to_string(), "package Main\nimport Lib\n\nfn main() {\n    string_println(int32_to_string(Lib::f1(0)))\n}\n".to_string())];
+        for k in 1..=n {
+            let body = if k < n { format!("package Lib\n\nstruct T{k} {{ v: int32 }}\nfn f{k}(x: int32) -> int32 {{ let t = T{k} {{ v: {k} }}; f{m}(x + t.v) }}\n", k = k, m = k + 1) } else { format!("package Lib\n\nfn f{k}(x: int32) -> int32 {{ x * 2 }}\n", k = k) };
+            files.push((format!("Lib/f{}.gom", k), body));
+        }
+        let s: usize = (1..n).sum();
+        v.push(Project { name: format!("size-files-{}", n), files, expected_stdout: Some(format!("{}\n", 2 * s)) });
+    }
+    v
+}
+
 pub fn same_name_projects() -> Vec<Project> {
     vec![
         p(
